@@ -22,6 +22,15 @@ from ..core import MachineryError, pmap
 
 TITLES = {'Intro': 'Intro', 'Setup': 'Set up: now'}
 BAD = ': #$%^&*!~`"=?/{}[]()|<>;\\,.'
+LABEL = {'own': 'lab%d', 'index': 'index', 'sect1': 'sect0001'}
+
+
+def label(nodes, i):
+    """the label text of unit i (1-based)"""
+    k = nodes[i - 1]['lab']
+    return LABEL[k] % i if k == 'own' else LABEL[k]
+
+
 TEMPLATES = {'default': None, 'title': 'index [$title, sect$num(4)]', 'single': 'only'}
 CLASSES = {
     'article': (['section', 'subsection', 'subsubsection'], 0),
@@ -33,6 +42,7 @@ CFG = '''CONSTANTS
   SplitLevels = {0, 1, 2, 3}
   Templates = {%s}
   MaxRefs = %d
+  LabKinds = {%s}
   RefKinds = {"sec"}
 INIT Init
 NEXT Next
@@ -79,11 +89,11 @@ def concretise(beh, cls='article'):
             s += '\\footnote{ff%d note}' % i
         for k, r in enumerate(refs):
             if r['from'] == i:
-                s += ' see rr%d \\ref{lab%d} here' % (k + 1, r['to'])
+                s += ' see rr%d \\ref{%s} here' % (k + 1, label(beh['nodes'], r['to']))
         return s + '\n\n'
     out.append(body(0, beh['docfn']))
     for i, n in enumerate(beh['nodes'] or []):
-        out.append('\\%s{%s}%s\n' % (cmds[n['lvl'] - 1], TITLES[n['title']], '\\label{lab%d}' % (i + 1) if n['lab'] else ''))
+        out.append('\\%s{%s}%s\n' % (cmds[n['lvl'] - 1], TITLES[n['title']], '\\label{%s}' % label(beh['nodes'], i + 1) if n['lab'] != 'none' else ''))
         out.append(body(i + 1, n['fn']))
     out.append('\\end{document}\n')
     return ''.join(out)
@@ -104,6 +114,10 @@ def overrides(beh, cls='article', variant=None):
         ov[('files', 'bad-chars-sub')] = '_'
     elif variant == 'title1' and beh['tmpl'] == 'title':
         ov[('files', 'filename')] = 'index [$title(1), sect$num(2)]'
+    elif variant == 'ext' and beh['tmpl'] == 'default':
+        ov[('files', 'filename')] = 'index.html [$id, sect$num(4)]'        # an explicit extension on one name only: same files
+    elif variant == 'ext2' and beh['tmpl'] == 'default':
+        ov[('files', 'filename')] = 'index [$id.html, sect$num(4)]'
     return ov
 
 
@@ -185,23 +199,42 @@ def replay_one(job):
     return 'ok', ''
 
 
-def behaviours(chk, tier, seed, maxrefs=0):
-    behs = []
+def behaviours(chk, tier, seed, maxrefs=0, labkinds='"none", "own", "index", "sect1"', refkinds=None):
+    """exhaustive check of the design at the larger bound, behaviours printed at the smaller bound and by simulation beyond it"""
     alltm = '"default", "title", "single"'
-    plan = [(3, alltm)] if tier == 'quick' else [(4, alltm)]
-    for mn, tm in plan:
-        res = tlc.run('Split', cfg_text=CFG % (mn, tm, maxrefs), timeout=3400, heap='12g')
-        chk.add_tlc(res, 'split(MaxNodes=%d,templates=%s,refs<=%d)' % (mn, tm.replace('"', ''), maxrefs))
-        if not res.ok:
-            chk.violation('design:' + ','.join(res.violated or ['error']),
-                          'TLC found a counterexample in the Split design: %s\n%s' % (res.violated, res.trace_text[:2500]))
-        behs.extend(res.beh)
+    cfg = CFG if refkinds is None else CFG.replace('RefKinds = {"sec"}', 'RefKinds = {%s}' % refkinds)
+    noemit = cfg.replace('INVARIANT Emit\n', '')
+    big, small = (3, 2) if tier == 'quick' else (4, 3)
+    res = tlc.run('Split', cfg_text=noemit % (big, alltm, maxrefs, labkinds), timeout=3400, heap='12g', want_beh=False)
+    chk.add_tlc(res, 'split(MaxNodes=%d,refs<=%d)' % (big, maxrefs))
+    if not res.ok:
+        chk.violation('design:' + ','.join(res.violated or ['error']),
+                      'TLC found a counterexample in the Split design: %s\n%s' % (res.violated, res.trace_text[:2500]))
+    res = tlc.run('Split', cfg_text=cfg % (small, alltm, maxrefs, labkinds), timeout=3400, heap='12g')
+    chk.add_tlc(res, 'split-emit(MaxNodes=%d,refs<=%d)' % (small, maxrefs))
+    behs = list(res.beh)
+    nsim, dsim = (4000, 8) if tier == 'quick' else (60000, 10)
+    rs = tlc.run('Split', cfg_text=cfg % (5, alltm, max(maxrefs, 2) if maxrefs else 0, labkinds), simulate=nsim, depth=dsim, seed=seed + 5,
+                 timeout=3400, heap='8g', workers=4)
+    chk.add_tlc(rs, 'simulate(num=%d,depth=%d,MaxNodes=5)' % (nsim, dsim))
+    if rs.violated:
+        chk.violation('design:sim:' + ','.join(rs.violated), 'TLC simulation found a counterexample: %s\n%s' % (rs.violated, rs.trace_text[:2500]))
+    seen = set()
+    for b in rs.beh:
+        k = repr((b['nodes'], b['refs'], b['split'], b['tmpl'], b['docfn']))
+        if k not in seen and len(b['nodes']) > small:
+            seen.add(k)
+            behs.append(b)
     return behs
 
 
 def nontrivial(beh):
     """more than one file, or a unit folded into its ancestor's file with a footnote"""
     return len(beh['files']) > 1 or any(n['fn'] for n in beh['nodes'])
+
+
+def collides(beh):
+    return any(n['lab'] in ('index', 'sect1') for n in beh['nodes'])
 
 
 def run(chk):
@@ -214,10 +247,11 @@ def run(chk):
     if not behs:
         raise MachineryError('C13: no behaviours emitted')
     rnd = random.Random(seed)
-    small = [b for b in behs if len(b['nodes']) <= 2]
-    big = [b for b in behs if len(b['nodes']) > 2]
+    small = [b for b in behs if len(b['nodes']) <= 1]
+    big = [b for b in behs if len(b['nodes']) > 1]
     rnd.shuffle(big)
-    nbig = 5000 if tier == 'quick' else 60000
+    big.sort(key=lambda b: not collides(b) or len(b['files']) < 2)       # name collisions first
+    nbig = 3500 if tier == 'quick' else 60000
     jobs = []
     for k, b in enumerate(small + big[:nbig]):
         jobs.append((b, 'article', 'HTML5', k % 16 == 0, None))
@@ -235,6 +269,11 @@ def run(chk):
     for b in ttl[:nx]:
         jobs.append((b, 'article', 'HTML5', False, 'badchars'))
         jobs.append((b, 'article', 'HTML5', False, 'title1'))
+    dfl = [b for b in small + big if b['tmpl'] == 'default' and len(b['files']) > 1 and any(n['lab'] in ('index', 'sect1') for n in b['nodes'])]
+    rnd.shuffle(dfl)
+    for b in dfl[:nx]:
+        jobs.append((b, 'article', 'HTML5', False, 'ext'))
+        jobs.append((b, 'article', 'HTML5', False, 'ext2'))
     results = pmap(replay_one, jobs, chunksize=20)
     for (beh, cls, rend, twice, variant), (kind, msg) in zip(jobs, results):
         key = [beh['nodes'], beh['docfn'], beh['split'], beh['tmpl'], cls, rend, variant]
